@@ -2,6 +2,7 @@ package main
 
 import (
 	"fmt"
+	"os"
 	"go/token"
 	"sort"
 	"strings"
@@ -37,13 +38,86 @@ func (e *Engine) summarize(st *State, fn *ssa.Function, args []Value, bind []Val
 		for _, t := range s.pc[entryPC:] {
 			c = And(c, t)
 		}
-		var news []ObjID
-		for id := range s.heap {
-			if id >= baseNext {
-				news = append(news, id)
+		// new objects that are still reachable: from the result and from pre-existing objects the callee modified
+		reach := map[ObjID]bool{}
+		var visit func(v Value)
+		visitObj := func(id ObjID) {
+			if id == 0 || id < baseNext || reach[id] {
+				return
+			}
+			reach[id] = true
+			o := s.heap[id]
+			if o == nil {
+				return
+			}
+			for _, x := range o.slots {
+				visit(x)
+			}
+			for k := range o.keys {
+				visit(o.keys[k])
+				visit(o.vals[k])
 			}
 		}
+		visit = func(v Value) {
+			switch x := v.(type) {
+			case Pointer:
+				visitObj(x.obj)
+			case SliceV:
+				visitObj(x.obj)
+			case StringV:
+				if x.isObj {
+					visitObj(x.obj)
+				}
+			case MapV:
+				visitObj(x.obj)
+			case Iface:
+				visit(x.val)
+			case StructV:
+				for _, f := range x.f {
+					visit(f)
+				}
+			case ArrayV:
+				for _, f := range x.e {
+					visit(f)
+				}
+			case TupleV:
+				for _, f := range x {
+					visit(f)
+				}
+			case FuncV:
+				for _, f := range x.bind {
+					visit(f)
+				}
+			case rangeIter:
+				for k := range x.keys {
+					visit(x.keys[k])
+					visit(x.vals[k])
+				}
+			}
+		}
+		visit(s.result)
+		for id, o := range s.heap {
+			if id < baseNext && st.heap[id] != o {
+				for _, x := range o.slots {
+					visit(x)
+				}
+				for k := range o.keys {
+					visit(o.keys[k])
+					visit(o.vals[k])
+				}
+			}
+		}
+		var news []ObjID
+		for id := range reach {
+			news = append(news, id)
+		}
 		sort.Slice(news, func(i, j int) bool { return news[i] < news[j] })
+		// drop garbage so that it neither blocks merging nor is copied along
+		for id := range s.heap {
+			if id >= baseNext && !reach[id] {
+				delete(s.heap, id)
+			}
+		}
 		leaves = append(leaves, leaf{st: s, res: s.result, cond: c, news: news})
 	}
 	e.summaryDepth++
@@ -90,6 +164,9 @@ func (e *Engine) summarize(st *State, fn *ssa.Function, args []Value, bind []Val
 		for _, l := range ls { // fall back: one class per leaf
 			ms = append(ms, merged{l.st.heap, l.res, l.cond})
 		}
+	}
+	if os.Getenv("GOSYM_MERGEDBG") != "" {
+		fmt.Fprintf(os.Stderr, "MERGE %s leaves=%d classes=%d results=%d keys=%q\n", fn.Name(), len(leaves), len(order), len(ms), order)
 	}
 	conds := make([]*Term, len(ms))
 	for i, m := range ms {
@@ -329,16 +406,28 @@ func (e *Engine) mergeValues(ls []leaf, remaps []map[ObjID]ObjID, get func(leaf)
 		}
 		return SliceV{obj: obj, es: first.es, off: pick(func(s SliceV) *Term { return s.off }), ln: pick(func(s SliceV) *Term { return s.ln }), cap: pick(func(s SliceV) *Term { return s.cap })}
 	case StringV:
+		same, allNE := true, true
 		for _, v := range vals {
 			s, ok := v.(StringV)
-			if !ok || s.isObj || s.opaque || first.isObj || first.opaque || s.conc != first.conc {
-				if ok && s.opaque && first.opaque {
-					continue
-				}
-				panic(mergeFail{"strings differ"})
+			if !ok {
+				panic(mergeFail{"string merged with non-string"})
+			}
+			if s.isObj || s.opaque || first.isObj || first.opaque || s.conc != first.conc {
+				same = false
+			}
+			ne := s.nonEmpty || (!s.isObj && !s.opaque && s.conc != "")
+			if s.isObj {
+				ne = false
+			}
+			if !ne {
+				allNE = false
 			}
 		}
-		return first
+		if same {
+			return first
+		}
+		// differing texts (error messages): the merged value is an opaque string
+		return StringV{opaque: true, nonEmpty: allNE}
 	case Iface:
 		for _, v := range vals {
 			iv, ok := v.(Iface)
